@@ -260,5 +260,6 @@ fn vmp_apply_dft_to_dft_core<const OVERWRITE: bool, REIM>(
         }
     }
 
-    REIM::reim_zero(&mut res[col_max * n..]);
+    // Only `col_max - limb_offset` limbs receive a product: zero everything past them.
+    REIM::reim_zero(&mut res[(col_max - limb_offset) * n..]);
 }
